@@ -327,4 +327,9 @@ def check(fx, rep, tier):
     import c13
     c13.check_scanners(rep, crate, 'full', rule='R14.8', prefix='')
     rep.floor('R14.8', 21, 'scanner verdict instances (3 scanners x 7)')
+    # ---- R14.11 the token strings Display can write (white space between tokens, comment lines before elements) are accepted (imported from C13, R13.11)
+    rep.rule('R14.11', 'rendered text parses back at the phrase level: the token language extracted from the parser functions contains every token string the grammar '
+             'requires (white space between any two tokens, comment lines before the interface, members, fields and variants) and nothing outside the grammar (rule R13.11 of C13)')
+    c13.check_grammar(fx, rep, rule='R14.11')
+    rep.floor('R14.11', 4, 'grammar inclusion verdicts (2 productions x 2 directions)')
     return META
